@@ -65,6 +65,8 @@ type VerifOp struct {
 	PauseAt  string        `json:"pause_at,omitempty"`  // race: hook point at which the first writer is held
 	FirstTxn bool          `json:"first_txn,omitempty"` // race: the first writer is a (single-dataset) transaction
 	Ld       bool          `json:"ld,omitempty"`        // hchanges / hentities: every request is repeated with Accept: application/ld+json and compared
+	RefuseDuring string    `json:"refuse_during,omitempty"` // batch: while this writer stands at batch.beforeIdCommit, a batch into this OTHER dataset is refused
+	Burn     int           `json:"n,omitempty"`         // burn: number of internal ids to use up (entities stored in a hidden dataset)
 	Reject   bool          `json:"reject,omitempty"`    // batch: an entity with a nil reference is appended, StoreEntities must refuse the whole batch
 }
 
@@ -280,8 +282,27 @@ func verifDoOp(h *verifHub, op VerifOp, idx int, times map[int]int64, tokens map
 			ents = append(ents, bad)
 		}
 		before, _ := ds.GetChangesWatermark2()
+		if op.RefuseDuring != "" {
+			other := h.dsm.GetDataset(op.RefuseDuring)
+			var once sync.Once
+			verifhook.SetHandler(func(name, arg string) {
+				if name == "batch.beforeIdCommit" && arg == op.Ds && other != nil {
+					once.Do(func() {
+						bad := NewEntity("ns3:poison", 0)
+						bad.References["ns3:r1"] = nil
+						fresh := NewEntity(fmt.Sprintf("ns3:fresh%d", idx), 0)
+						if err := other.StoreEntities([]*Entity{fresh, bad}); err == nil {
+							oo.Err = "the poisoned batch was accepted"
+						}
+					})
+				}
+			})
+		}
 		if err := ds.StoreEntities(ents); err != nil {
 			oo.Err = err.Error()
+		}
+		if op.RefuseDuring != "" {
+			verifhook.SetHandler(nil)
 		}
 		after, _ := ds.GetChangesWatermark2()
 		oo.NewSeqs = int(after - before)
@@ -547,6 +568,71 @@ func verifDoOp(h *verifHub, op VerifOp, idx int, times map[int]int64, tokens map
 		}
 		verifStamp(idx, times, verifLastTime(ds), times[1<<30])
 		times[1<<30] = times[idx]
+	case "par":
+		// the sets are stored at the same moment by one goroutine each (different datasets; no forced schedule)
+		type job struct {
+			ds   *Dataset
+			ents []*Entity
+		}
+		var jobs []job
+		for _, st := range op.Sets {
+			d := h.dsm.GetDataset(st.Ds)
+			if d == nil {
+				oo.Err = "no dataset"
+				return
+			}
+			ents, err := verifParse(store, st.Ents)
+			if err != nil {
+				oo.Err = "parse: " + err.Error()
+				return
+			}
+			for _, e := range ents {
+				oo.Lens = append(oo.Lens, verifLen(e))
+			}
+			jobs = append(jobs, job{d, ents})
+		}
+		start := make(chan struct{})
+		errs := make(chan error, len(jobs))
+		for _, j := range jobs {
+			j := j
+			go func() {
+				<-start
+				errs <- j.ds.StoreEntities(j.ents)
+			}()
+		}
+		close(start)
+		for range jobs {
+			if err := <-errs; err != nil {
+				oo.Err = err.Error()
+			}
+		}
+	case "burn":
+		// use up internal ids (they are global to the store) without telling the model: entities in a hidden dataset
+		hid := h.dsm.GetDataset("zzburn")
+		if hid == nil {
+			var err error
+			if hid, err = h.dsm.CreateDataset("zzburn", nil); err != nil {
+				oo.Err = err.Error()
+				return
+			}
+		}
+		for done := 0; done < op.Burn; {
+			n := op.Burn - done
+			if n > 500 {
+				n = 500
+			}
+			es := make([]*Entity, 0, n)
+			for i := 0; i < n; i++ {
+				e := NewEntity(fmt.Sprintf("ns3:zb%d_%d", idx, done+i), 0)
+				e.Properties["ns3:p1"] = i
+				es = append(es, e)
+			}
+			if err := hid.StoreEntities(es); err != nil {
+				oo.Err = err.Error()
+				return
+			}
+			done += n
+		}
 	case "seqs":
 		// the sequence numbers really present in the dataset's change log (key layout: idx=4, dataset id, sequence, entity id)
 		ds := h.dsm.GetDataset(op.Ds)
